@@ -106,6 +106,9 @@ def raise_from(origin, exc):
         r.deep(int(origin.split(":")[1]), exc)
     elif origin.startswith("pingpong:"):
         r.ping(int(origin.split(":")[1]), exc)
+    elif origin.startswith("exec-mid:"):
+        # a source-less frame between two ordinary ones
+        raisers.exec_caller(origin.split(":", 1)[1])(r.deep, 1, exc)
     elif origin.startswith("exec:"):
         fn = origin.split(":", 1)[1]
         if fn == "deleted":
@@ -409,6 +412,13 @@ def enumerated_cases(tier):
                 yield {"line": k % len(LINES), "verbosity": v, "ansi": [None, "--ansi"][k % 2], "listener": "absent",
                        "stream": "ascii", "outcome": {"kind": "raise", "exc": ek, "message": MESSAGES[mk],
                                                        "origin": ORIGINS[k % len(ORIGINS)]}}
+    # frames without a source line at every verbosity (the middle levels render single frame lines)
+    for og in ("exec:<string>", "exec:", "exec:deleted", "exec-mid:<string>", "exec-mid:"):
+        for v in verbs:
+            for a in ansis:
+                for ek in ("ValueError", "LibCustom"):
+                    yield {"line": 1, "verbosity": v, "ansi": a, "listener": "absent",
+                           "outcome": {"kind": "raise", "exc": ek, "message": MESSAGES["plain"], "origin": og}}
     if tier == "thorough":
         for ek in EXC_KINDS:
             for mk in MESSAGES:
